@@ -247,9 +247,41 @@ static struct vh_blk *vh_tab_find(void *p) {
     }
     return NULL;
 }
+/* Optional address recycling: released blocks are kept (poisoned, so any use is still an ASan report) and the
+ * next acquire of the same size gets the most recently released one back. ASan's own quarantine would otherwise
+ * make address reuse - and every defect that needs it, e.g. a table keyed by address - unreachable. */
+static int vh_recycle;
+static struct vh_blk vh_rcy[128];
+static int vh_nrcy;
+void __asan_poison_memory_region(void const volatile *addr, size_t size);
+void __asan_unpoison_memory_region(void const volatile *addr, size_t size);
+
+/* set by the controlled scheduler: memory allocation is a place where a real thread can be preempted for long */
+static void (*vh_alloc_point)(void);
+static size_t vh_block_size_raw(void *p) {
+    struct vh_blk *b = p ? vh_tab_find(p) : NULL;
+    return b ? b->n : (size_t)-1;
+}
 static void *vh_acq(struct aws_allocator *a, size_t n) {
     (void)a;
-    void *p = malloc(n ? n : 1);
+    if (vh_alloc_point) {
+        vh_alloc_point();
+    }
+    void *p = NULL;
+    if (vh_recycle) {
+        for (int i = vh_nrcy - 1; i >= 0; --i) {
+            if (vh_rcy[i].n == n) {
+                p = vh_rcy[i].p;
+                memmove(&vh_rcy[i], &vh_rcy[i + 1], (size_t)(vh_nrcy - i - 1) * sizeof(vh_rcy[0]));
+                vh_nrcy--;
+                __asan_unpoison_memory_region(p, n);
+                break;
+            }
+        }
+    }
+    if (!p) {
+        p = malloc(n ? n : 1);
+    }
     memset(p, 0xA5, n);
     vh_tab_put(p, n);
     vh_total_acquires++;
@@ -283,7 +315,18 @@ static void vh_rel(struct aws_allocator *a, void *p) {
     if (!p) {
         return;
     }
+    if (vh_alloc_point) {
+        vh_alloc_point();
+    }
+    size_t n = vh_block_size_raw(p);
     vh_note_release(p);
+    if (vh_recycle && n != (size_t)-1 && n > 0 && vh_nrcy < 128) {
+        __asan_poison_memory_region(p, n);
+        vh_rcy[vh_nrcy].p = p;
+        vh_rcy[vh_nrcy].n = n;
+        vh_nrcy++;
+        return;
+    }
     free(p);
 }
 static void *vh_realloc(struct aws_allocator *a, void *old, size_t oldn, size_t newn) {
